@@ -78,12 +78,31 @@ def run_config(ctx, config, counts):
            "the selection uses the amount outside comparisons (%s): the finite order partition would not be complete" % bad, b["span"])
     ctx.sample({"function": G.HRU + "_fit", "summary": "; ".join("[%s] %s" % (T.show_guard(g), T.show(t)) for g, k, t in outs)[:900]})
     # natural unit lookup form is C09's lookup-form; here: evaluation on the tables
-    louts, lb, lev = G.summarize(U, G.HRU + "unit_from_scale", {"*"}, stop=G.STOP_LOOKUP)
+    louts0, lb0, lev0 = G.summarize(U, G.HRU + "unit_from_scale", {"*"}, stop=G.STOP_LOOKUP)
+    outs0, b0, ev0 = outs, b, ev
     prims = set()
     for q in w.qtypes:
-        if q.kind != "ref":
+        if q.kind not in ("ref", "dimless") or "scale" not in q.tables:
             continue
         inst0 = "%s/%s" % (config, q.path)
+        # a type that overrides the lookup or the selection is evaluated with its own bodies
+        tov = G.type_overrides(U, q)
+        ov = {k: v for k, v in tov.items() if k in ("LinearScaledUnit::from_scale", "HasRefUnit::unit_from_scale")}
+        try:
+            if ov:
+                louts, lb, lev = G.summarize(U, G.HRU + "unit_from_scale", {"*"}, stop=G.STOP_LOOKUP, overrides=ov)
+            else:
+                louts, lb, lev = louts0, lb0, lev0
+            if "HasRefUnit::_fit" in tov and q.kind == "ref":
+                outs, b, ev = G.summarize(U, G.HRU + "_fit", set(), overrides=tov)
+                bad = amount_only_compared(outs, ev, U)
+                ctx.ob("amount-only-compared", inst0, not bad,
+                       "the selection of %s uses the amount outside comparisons (%s)" % (q.path, bad), b["span"])
+            else:
+                outs, b, ev = outs0, b0, ev0
+        except ModelError as e:
+            ctx.fail("override", inst0, "%s overrides the lookup / selection with a body outside the analysed fragment: %s" % (q.path, e.what), e.where or q.span)
+            continue
         c = conc.Conc(U, q, ev)
         # reference x reference -> reference unit: lookup(1) is the reference unit
         try:
@@ -100,6 +119,22 @@ def run_config(ctx, config, counts):
             except (conc.CannotEvaluate, conc.ModelPanic, T.Unsupported) as x:
                 ok, r = False, str(x)
             ctx.ob("natural-unit", "%s/scale=%s" % (inst0, s), ok, "unit_from_scale(%s) yields %s" % (s, r), q.span)
+        # ... and for a combined scale that is no unit's scale it returns nothing (otherwise the product of the
+        # amounts would be stored with a unit of a different scale instead of being fitted)
+        declared = {q.tables["scale"][v][1] for v in q.variants_const}
+        for (cname, x) in cells(q):
+            if x in declared:
+                continue
+            try:
+                r = conc.Conc(U, q, lev).pick(louts, {0: x})
+                ok = r is None
+            except (conc.CannotEvaluate, conc.ModelPanic, T.Unsupported) as e:
+                ok, r = False, str(e)
+            ctx.ob("natural-unit-miss", "%s/%s" % (inst0, cname), ok,
+                   "unit_from_scale(%s) on %s yields %s although no unit has that scale" % (x, q.path, r), lb["span"], nontrivial=False)
+        if q.kind != "ref":
+            counts["types"].add((config, q.path))
+            continue
         # best fit: every cell of the order partition
         for (cname, x) in cells(q):
             inst = "%s/%s" % (inst0, cname)
@@ -132,7 +167,7 @@ def run(ctx):
     for config in ("f64-all", "dec-all") + (("f64-nostd", "dec-nostd") if ctx.tier == "thorough" else ()):
         run_config(ctx, config, counts)
     ctx.floor("best-fit cells evaluated", counts["cells"], 600)
-    ctx.floor("reference-unit result types", len(counts["types"]), 23 + 19)
+    ctx.floor("reference-unit result types (incl. the dimensionless amount)", len(counts["types"]), 23 + 19 + 2)
     ctx.exhaustive = True
     ctx.rule_text = ("per reference-unit type and configuration: every cell of the order partition induced by its scale table (below / on / between / above "
                      "every distinct scale, zero, negative) x the extracted selection model vs the specified selection; lookup(1) = reference unit; lookup(s) for every declared scale")
